@@ -223,6 +223,45 @@ CHECK_DEADLOCK FALSE
     ctx.notes["graph"] = {"nodes": len(g.nodes), "registry_states": len(seen), "dispatch_histories_replayed": n_hist}
     ctx.sample({"registry_state": {"reg": reg, "methods": methods}, "expected_per_key": exp})
 
+    # every command of the protocol: a client class with an on_<command> method for each of them (named as the library names the command) and a
+    # catch-all method; each task reaches its own method, once, however many tasks came before
+    names = {}
+    for m in c2.BeaconCommand:
+        names.setdefault(int(m.value), c2.BeaconCommand(int(m.value)).name.replace("COMMAND_", "").lower())
+    calls = []
+    ns = {"on_catch_all": lambda self, task: calls.append("catch_all")}
+    for v, nm in names.items():
+        ns["on_" + nm] = (lambda v_: lambda self, task: calls.append(v_))(v)
+    cl_all = type("EveryCommand", (client_mod.HttpBeaconClient,), ns)()
+    for rnd in range(2):
+        for v in names:
+            calls.clear()
+            dispatch(client_mod, c2, cl_all, v)
+            ctx.evaluations += 1
+            if calls != [v]:
+                ctx.violation("a task was not dispatched to exactly the handlers Client.tla expects", {"op": "HttpBeaconClient._beacon_loop", "failed": "method_handler_of_command"},
+                              {"command": v, "method": "on_" + names[v], "called": [str(x) for x in calls], "round": rnd})
+        ctx.count_distinct(("every_command", rnd))
+    # decorators stacked on one function, in every order: each decorator hands the function on, so every registration is of the function
+    for order in (("handle4", "handle5", "catch_all"), ("catch_all", "handle4", "handle5"), ("handle4", "catch_all", "handle5")):
+        cl_s = client_mod.HttpBeaconClient()
+        calls = []
+
+        def f(task):
+            calls.append("f")
+
+        g_ = f
+        for d_ in reversed(order):  # the innermost decorator is applied first
+            g_ = {"handle4": cl_s.handle(4), "handle5": cl_s.handle(5), "catch_all": cl_s.catch_all()}[d_](g_)
+        for v in (4, 5, 2, 4):
+            calls.clear()
+            dispatch(client_mod, c2, cl_s, v)
+            ctx.evaluations += 1
+            if calls != ["f"]:
+                ctx.violation("a task was not dispatched to exactly the handlers Client.tla expects", {"op": "HttpBeaconClient._beacon_loop", "failed": "stacked_decorators"},
+                              {"decorators_outermost_first": list(order), "command": v, "called": list(calls)})
+                break
+        ctx.count_distinct(("stacked", order))
     # identity, keys, sleep band, metadata size: recorded set-ups judged by ClientIO
     rng = random.Random(ctx.seed + 19)
     k1024 = RSA.generate(1024, randfunc=random.Random(11).randbytes)
